@@ -83,7 +83,35 @@ fn exec_with_fair_rerun(case: &Case, body: fn(&Case, &crate::exec::Shared)) -> C
 
 fn conc_case(run_seed: u64, tier: Tier, profile: ConcProfile) -> Case {
     let mut rng = Rng::new(run_seed);
-    let (plan, params) = gen_conc(&mut rng, profile, tier == Tier::Thorough);
+    let (mut plan, mut params) = gen_conc(&mut rng, profile, tier == Tier::Thorough);
+    // alignment directives (a stream of their own: plans without them are unchanged): in a third of
+    // the runs some client operations, and in half of those the final close, start exactly when
+    // another task sits at a drawn kind of scheduling point
+    let mut arng = rng.fork("align");
+    if profile == ConcProfile::C09 && arng.chance(1, 3) {
+        // close right after the last client returned, while flushes / compactions are in flight
+        // (only effective in runs that do not quiesce first)
+        params.insert("early_close".to_string(), 1);
+        if arng.chance(3, 4) {
+            // ... and exactly when the background thread lets go of the database mutex (the end of a
+            // background task is such a point) or sits at another drawn point
+            let mask = *arng.pick(&[1i64 << 8, 1 << 8, 0b110, 1 << 3, 0x1ff]);
+            params.insert("close_align_mask".to_string(), mask);
+            params.insert("close_align_nth".to_string(), *arng.pick(&[1i64, 1, 2, 3, 5]));
+        }
+    }
+    if arng.chance(1, 3) {
+        let one_in = *arng.pick(&[3u64, 5, 8]);
+        for c in plan.clients.iter_mut() {
+            crate::plan::add_aligns(&mut arng, c, one_in);
+        }
+        if arng.chance(1, 2) && !params.contains_key("close_align_mask") {
+            if let Op::Align { mask, nth } = crate::plan::gen_align(&mut arng) {
+                params.insert("close_align_mask".to_string(), mask as i64);
+                params.insert("close_align_nth".to_string(), nth as i64);
+            }
+        }
+    }
     let est = (plan.op_count() as u32) * 60;
     let sched = gen_strategy(&mut rng.fork("sched"), est, true);
     Case { engine: Engine::Conc, run_seed, plan, sched, schedule: None, fault: None, params, image: None, max_steps: Some(2_000_000), log_plan: None, lock_plan: None, corrupt: None }
@@ -118,6 +146,11 @@ fn hist_case(run_seed: u64, tier: Tier, profile: Profile) -> Case {
         // WAL records around the first 32 KiB block boundary, kept in the log (1 MiB memtable) across
         // the plan's clean reopens (reuse_log_files appends to such a log, or replays it)
         crate::gen::boundary_prefix(&mut rng.fork("boundary-shape"), &mut plan);
+    }
+    let mut arng = rng.fork("align");
+    if arng.chance(1, 5) {
+        let one_in = *arng.pick(&[4u64, 8, 16]);
+        crate::plan::add_aligns(&mut arng, &mut plan.ops, one_in);
     }
     let est = (plan.op_count() as u32) * 80;
     let sched = gen_strategy(&mut rng.fork("sched"), est, false);
